@@ -678,10 +678,12 @@ def sessions(ctx):
         labels = {}
         live = AP(maxwidth=width, radix=radix, labels={})
         script = ['width %d' % width, 'radix %d' % radix]
+        sess_names = rng.sample(names, 3)
+        asked = []
         for step in range(rng.randrange(3, 25)):
             r = rng.random()
             if r < 0.25:
-                k, v = rng.choice(names), rng.randrange(1 << 16)
+                k, v = rng.choice(sess_names), rng.randrange(1 << 16)
                 live.labels[k] = v
                 labels[k] = v
                 script.append('label %s=%d' % (k, v))
@@ -699,11 +701,15 @@ def sessions(ctx):
                 live.maxwidth = width
                 script.append('width %d' % width)
             else:
-                base = rng.choice(names)
+                base = rng.choice(sess_names)
                 off = rng.choice(['0', '1', '10', '$1f', '+9', '%101', 'ff', 'F'])
                 text = rng.choice([base, '%s+%s' % (base, off), '%s - %s' % (base, off), '$%x' % rng.randrange(1 << 20),
                                    off, '%s:%s' % (base, off)])
                 use_range = ':' in text or rng.random() < 0.15
+                if asked and rng.random() < 0.45:
+                    # ask again something this parser has already answered (memoisation, stale state)
+                    text, use_range = rng.choice(asked)
+                asked.append((text, use_range))
                 fresh = AP(maxwidth=width, radix=radix, labels=dict(labels))
                 got = _outcome(live.range if use_range else live.number, text)
                 exp = _outcome(fresh.range if use_range else fresh.number, text)
